@@ -43,15 +43,15 @@ SECRETS = {
 # (secret id used for signing, key_version argument)
 SIGNERS = [("str", None), ("bytes", None), ("dict", 0), ("dict", 1)]
 
-NAMES = ["a", "ab", "abcde", "n|m", "é"]
+NAMES = ["a", "ab", "abcde", "n|m", "é", "l\nf"]
 VALUES = ["", "v", "a|b", b"\xff\xfe\x00", b"0123456789" * 4, "éĀ",
           b"abc\xd7\x6d\xf8",     # base64 'YWJj1234': digits adjacent to the timestamp
           b"ab>",                 # base64 'YWI+': '+' adjacent to the timestamp
           b"\xd7\x6d\xf8"]         # base64 '1234': a v1 value that looks like "version 1234|"
 T0_QUICK = [1, 1300000000]
 T0_THOROUGH = [1, 9, 1111, 1300000000, 1311111111, 2 ** 31]
-AGES_QUICK = [31, 1]
-AGES_THOROUGH = [31, 1, 0.5, 40000]
+AGES_QUICK = [31, 1, 0]
+AGES_THOROUGH = [31, 1, 0.5, 40000, 0]
 
 EDIT_ALPHA_QUICK = b"019aA|:=- \x00\x80"
 ARB_ALPHA = "012|:a=-"
@@ -267,10 +267,10 @@ def fam_roundtrip(R, s, tier):
             want_in = s.payload if s.version >= minv else None
             d = "min_version=%d" % minv
             for as_str in (False, True):
-                for dt in (0, 1, span // 2, span - 1, span):
+                for dt in ((0, 1, span // 2, span - 1, span) if span else (0,)):     # max_age_days=0: only the creation second
                     R.case("roundtrip", s.sid, s.name, s.data, s.t0 + dt, want_in, age, minv,
                            as_str, ver, "inside age window, " + d, nt=("in", age, minv))
-                for dt in (span + 1, span + 86400, 10 * span + 5):
+                for dt in ((span + 1, span + 86400, 10 * span + 5) if span else (1, 5, 86400, 40 * 86400)):
                     R.case("expired", s.sid, s.name, s.data, s.t0 + dt, None, age, minv,
                            as_str, ver, "expired", nt=("exp", age, minv))
             # statement silent: reader's clock before the creation time; sub-second
